@@ -163,7 +163,10 @@ def run(ctx, facts):
         ctx.violation("OPEN", RELOAD, "open mode", hirq.loc(rn), "the reload file is opened with %s" % rch)
     dj = [nf.nf(e) for e in def_exprs(dfn, dpath)] if re.match(r"^\w+$", dpath) else [dpath]
     rj = [nf.nf(e) for e in def_exprs(rfn, rpath)] if re.match(r"^\w+$", rpath) else [rpath]
-    if dj == rj and len(dj) == 1 and re.match(r"^dirpath\.join\(.+\)$", dj[0]):
+    dd_, rd_ = hirq.show_pat(dfn["params"][1]["pat"]), hirq.show_pat(rfn["params"][0]["pat"])
+    djn = [x.replace(dd_ + ".join(", "DIR.join(", 1) for x in dj]
+    rjn = [x.replace(rd_ + ".join(", "DIR.join(", 1) for x in rj]
+    if djn == rjn and len(djn) == 1 and re.match(r"^DIR\.join\(.+\)$", djn[0]):
         ctx.ok("OPEN", RELOAD, "both sides use %s" % dj[0], hirq.loc(rn))
     else:
         ctx.violation("OPEN", RELOAD, "file name", hirq.loc(rn), "dump writes %s but reload reads %s" % (dj, rj))
